@@ -153,8 +153,9 @@ class Ctx:
 
 
 def write_replay(prop, seed, k, payload):
-    os.makedirs(os.path.join(VERIF, 'replays'), exist_ok=True)
-    path = os.path.join('replays', f'{prop}-{seed}-{k}.json')
+    rdir = os.environ.get('VERIF_REPLAY_DIR', 'replays')
+    os.makedirs(os.path.join(VERIF, rdir), exist_ok=True)
+    path = os.path.join(rdir, f'{prop}-{seed}-{k}.json')
     with open(os.path.join(VERIF, path), 'w') as f:
         json.dump(payload, f, indent=1, default=str)
     return path
@@ -275,8 +276,9 @@ def run_check(prop, tier, seed, replay=None):
         'assumptions': list(getattr(mod, 'ASSUMPTIONS', [])),
         'wall_s': round(ctx.elapsed(), 2), 'violations': len(violations),
     }
-    os.makedirs(os.path.join(VERIF, 'evidence'), exist_ok=True)
-    with open(os.path.join(VERIF, 'evidence', f'{prop}.json'), 'w') as f:
+    edir = os.environ.get('VERIF_EVIDENCE_DIR', os.path.join(VERIF, 'evidence'))    # scratch runs against mutants write elsewhere
+    os.makedirs(edir, exist_ok=True)
+    with open(os.path.join(edir, f'{prop}.json'), 'w') as f:
         json.dump(ev, f, indent=1, default=str)
 
     for l in lines:
